@@ -216,6 +216,52 @@ fn cv_forward(e: &'static Engine, workers: usize, cancel_a: bool, hold: bool) {
     e.note(&format!("a_consumed={} b_before_rescue={}", a_consumed, b_ok));
 }
 
+/// store-buffer member: A and B wait; A is cancelled and the single notify_one is issued in the instant in which A has
+/// registered its release (label behind SyncBlocker::set_release): either A passes the notification on or the notifier does
+fn cv_forward_sb(e: &'static Engine, workers: usize) {
+    static RESCUE: AtomicBool = AtomicBool::new(false);
+    static B_BEFORE_RESCUE: AtomicBool = AtomicBool::new(false);
+    rt_init(workers);
+    let p = Arc::new(Pair { m: Mutex::new(0), cv: Condvar::new() });
+    e.begin();
+    let pn = p.clone();
+    let notifier = e.spawn("notifier", move || {
+        e.wait_label("syncblocker.set_release");
+        pn.cv.notify_one();
+    });
+    let pa = p.clone();
+    let a = go!(move || {
+        let g = pa.m.lock().unwrap();
+        let _g = pa.cv.wait(g).unwrap();
+    });
+    // A is first in the queue
+    e.quiesce();
+    let pb = p.clone();
+    let b = go!(move || {
+        let g = pb.m.lock().unwrap();
+        let _g = pb.cv.wait(g).unwrap();
+        if !RESCUE.load(Ordering::SeqCst) {
+            B_BEFORE_RESCUE.store(true, Ordering::SeqCst);
+        }
+    });
+    e.quiesce();
+    unsafe { a.coroutine().cancel() };
+    let ra = a.join();
+    e.join(notifier);
+    e.quiesce();
+    {
+        let _g = p.m.lock().unwrap();
+        RESCUE.store(true, Ordering::SeqCst);
+        p.cv.notify_all();
+    }
+    b.join().unwrap();
+    let b_ok = B_BEFORE_RESCUE.load(Ordering::SeqCst);
+    if ra.is_err() && !b_ok {
+        e.fail("notification_lost", "one notify_one with two registered waiters: A was cancelled and B was not woken before the rescue");
+    }
+    e.note(&format!("a={} b_before_rescue={} store_buffer={}", if ra.is_ok() { "ok" } else { "cancel" }, b_ok, e.tso_used()));
+}
+
 /// a waiter is cancelled while it re-acquires the mutex after a notification (cancellation is disabled there):
 /// A and B wait; the notifier sets the predicate and notifies all while holding the mutex, cancels A, lets A work
 /// through the cancel, then unlocks. Nobody may share the mutex afterwards and it must be free at the end.
@@ -458,6 +504,9 @@ pub fn build(quick: bool) -> Vec<Scenario> {
     }
     for w in [1usize, 2] {
         v.push(Scenario::new("C11", "condvar_cancel_relock", format!("condvar.cancel_during_relock.w{}", w), Arc::new(move |e| cv_cancel_during_relock(e, w))).vt_horizon(50_000_000));
+    }
+    for w in [1usize, 2] {
+        v.push(Scenario::new("C11", "condvar_store_buffer", format!("condvar.forward.cancel.store_buffer.w{}", w), Arc::new(move |e| cv_forward_sb(e, w))).tso(&["src/sync/blocking.rs"]).bound(2));
     }
     // barrier and wait group
     for w in [1usize, 2] {
